@@ -44,8 +44,9 @@ fn parser_for(cfg: usize) -> CooklangParser {
     }
 }
 
-/// number of calls in the alphabet: every input x {parse, parse_metadata, parse + scale + convert, parse with callbacks}
-pub const KINDS: usize = 4;
+/// number of calls in the alphabet: every input x {parse, parse_metadata, parse + scale + convert, parse with callbacks,
+/// parse_metadata whose validator callback re-enters the same parser with a full parse}
+pub const KINDS: usize = 5;
 pub const CALLS: usize = INPUTS.len() * KINDS;
 
 /// what one call observes. Calls are kept separate (not bundled into one
@@ -55,10 +56,29 @@ pub fn observe(p: &CooklangParser, call: usize) -> String {
     let input = INPUTS[call / KINDS];
     match call % KINDS {
         3 => exact_image(&crate::oracles::parse_with_callbacks(p, input)),
+        4 => {
+            // re-entrancy: a full parse of the same input from inside the metadata validator of a metadata-only parse
+            let nested: std::cell::RefCell<Option<String>> = std::cell::RefCell::new(None);
+            let opts = cooklang::ParseOptions {
+                recipe_ref_check: None,
+                metadata_validator: Some(Box::new(|_k: &serde_yaml::Value, _v: &serde_yaml::Value, _o: &mut cooklang::analysis::CheckOptions| {
+                    let mut n = nested.borrow_mut();
+                    if n.is_none() {
+                        *n = Some(exact_image(&p.parse(input)));
+                    }
+                    cooklang::analysis::CheckResult::Ok
+                })),
+            };
+            let m = p.parse_metadata_with_options(input, opts);
+            let meta = format!("meta={:?} {:?}", m.output().map(|m| serde_json::to_string(m).unwrap_or_default()), m.report().iter().map(|d| format!("{:?}/{:?} {:?} labels={:?} hints={:?}", d.severity, d.stage, d.message, d.labels, d.hints)).collect::<Vec<_>>());
+            drop(m);
+            let n = nested.borrow().clone().unwrap_or_else(|| "<validator not called>".to_string());
+            format!("nested={n}\u{1}{meta}")
+        }
         0 => exact_image(&p.parse(input)),
         1 => {
             let m = p.parse_metadata(input);
-            format!("meta={:?} {:?}", m.output().map(|m| serde_json::to_string(m).unwrap_or_default()), m.report().iter().map(|d| format!("{:?}/{:?} {:?} labels={:?}", d.severity, d.stage, d.message, d.labels)).collect::<Vec<_>>())
+            format!("meta={:?} {:?}", m.output().map(|m| serde_json::to_string(m).unwrap_or_default()), m.report().iter().map(|d| format!("{:?}/{:?} {:?} labels={:?} hints={:?}", d.severity, d.stage, d.message, d.labels, d.hints)).collect::<Vec<_>>())
         }
         _ => match p.parse(input).into_output() {
             Some(o) => {
@@ -392,6 +412,14 @@ fn harnesses(tier: Tier) -> Vec<Harness> {
         Harness { name: "2 threads x 2 calls (parse, metadata-only | scale+convert, parse)", bodies: vec![vec![p(8), m(1)], vec![sc(6), p(3)]], cfg: 0, bound: 1 },
         Harness { name: "3 threads x 1 call (fractions+scaling | inline | same input)", bodies: vec![vec![sc(6)], vec![p(5)], vec![sc(6)]], cfg: 0, bound: 1 },
     ];
+    // every ordered pair of call kinds on two threads, each on a `>>`-metadata input (deprecation hint, time bookkeeping, tags)
+    const KIND_NAMES: [&str; KINDS] = ["parse", "parse_metadata", "parse+scale+convert", "parse with callbacks", "parse_metadata re-entering parse"];
+    for ka in 0..KINDS {
+        for kb in 0..KINDS {
+            let name: &'static str = Box::leak(format!("kind pair: {} | {}", KIND_NAMES[ka], KIND_NAMES[kb]).into_boxed_str());
+            v.push(Harness { name, bodies: vec![vec![8 * KINDS + ka], vec![1 * KINDS + kb]], cfg: 0, bound: tier.pick(1, 2) });
+        }
+    }
     if tier == Tier::Thorough {
         v.push(Harness { name: "2 threads x 1 parse, 3 preemptions", bodies: vec![vec![p(3)], vec![p(2)]], cfg: 0, bound: 3 });
         v.push(Harness { name: "2 threads x 2 calls, 2 preemptions", bodies: vec![vec![p(8), m(1)], vec![sc(6), p(3)]], cfg: 0, bound: 2 });
@@ -415,6 +443,15 @@ pub fn replay(case: &J) -> Vec<Violation> {
             let h: Vec<usize> = case["history"].as_array().map(|a| a.iter().filter_map(|x| x.as_u64().map(|x| x as usize)).collect()).unwrap_or_default();
             let shared = [parser_for(0), parser_for(1), parser_for(2)];
             check_history(&reference, &shared, &h, &mut local)
+        }
+        "reentrancy" => {
+            let (cfg, i) = (case["cfg"].as_u64().unwrap_or(0) as usize, case["input"].as_u64().unwrap_or(0) as usize);
+            let nested = reference[cfg][i * KINDS + 4].strip_prefix("nested=").and_then(|s| s.split('\u{1}').next()).unwrap_or("").to_string();
+            if nested != "<validator not called>" && nested != reference[cfg][i * KINDS] {
+                vec![Violation::new("result depends on being called from inside a callback of the same parser", diff_pos(&reference[cfg][i * KINDS], &nested), case.clone())]
+            } else {
+                vec![]
+            }
         }
         "pull" => check_interleaved_pull(case["a"].as_u64().unwrap_or(0) as usize, case["b"].as_u64().unwrap_or(0) as usize, &mut local),
         "stress" => {
@@ -454,6 +491,22 @@ pub fn run(tier: Tier) {
             std::process::exit(2)
         }
     };
+    // re-entrancy: the parse made from inside the validator callback must equal the plain parse of the same input
+    for cfg in 0..CFGS {
+        for i in 0..INPUTS.len() {
+            let nested = reference[cfg][i * KINDS + 4].strip_prefix("nested=").and_then(|s| s.split('\u{1}').next()).unwrap_or("");
+            if nested != "<validator not called>" && nested != reference[cfg][i * KINDS] {
+                c.violation(Violation::new(
+                    "result depends on being called from inside a callback of the same parser",
+                    format!("cfg {cfg} input {:?}: parse from inside the metadata validator of parse_metadata differs from the plain parse; {}", INPUTS[i], diff_pos(&reference[cfg][i * KINDS], nested)),
+                    json!({"kind": "reentrancy", "cfg": cfg, "input": i}),
+                ));
+            }
+        }
+    }
+    if c.has_violations() {
+        return;
+    }
     c.part(json!({"inputs": INPUTS, "configurations": ["all extensions + bundled units", "canonical", "all extensions + bundled units with the minute unit renamed"]}));
     // histories: run on ONE thread so that process-wide and thread-local state accumulates
     let depth = tier.pick(3, 4);
@@ -514,6 +567,9 @@ pub fn run(tier: Tier) {
     cooklang::verif_hooks::set_yield(None);
     if !c.has_violations() {
         stress_supplement(tier, &reference);
+    }
+    if !c.has_violations() {
+        cold_start_supplement(tier);
     }
     c.note("states / transitions: history nodes plus scheduling points visited over all executions; traces_validated_against_impl: histories and complete schedules executed on the real parser");
     c.assume("threads are serialised by the explorer and switch only at the hook points (token pulled, event consumed) and at thread exit; races inside one token's processing and weak-memory effects are not explored");
@@ -579,7 +635,58 @@ fn stress_supplement(tier: Tier, _reference: &[Vec<String>]) {
     }
 }
 
+/// Supplement, NOT part of the exhaustive claim: the first calls on a brand
+/// new parser made by several free-running threads at once (lazily built
+/// per-converter state would be initialised concurrently here).
+fn cold_start_supplement(tier: Tier) {
+    use std::sync::atomic::{AtomicUsize, Ordering};
+    const INPUT: &str = "Add 2 tablespoons and 3 kilograms then ~{5%minutes} @x{1%millilitres} @y{2%fl oz} 180 °C, 1 teaspoon\n";
+    let c = ctx();
+    let warm = parser_for(0);
+    let expected = exact_image(&warm.parse(INPUT));
+    let threads = 8usize;
+    let trials = tier.pick(2000, 20000);
+    let t0 = std::time::Instant::now();
+    let mut found: Option<String> = None;
+    'trials: for _ in 0..trials {
+        let parser = Arc::new(parser_for(0));
+        let gate = Arc::new(AtomicUsize::new(0));
+        let handles: Vec<_> = (0..threads)
+            .map(|_| {
+                let (parser, gate) = (parser.clone(), gate.clone());
+                std::thread::spawn(move || {
+                    gate.fetch_add(1, Ordering::AcqRel);
+                    while gate.load(Ordering::Acquire) < threads {
+                        std::hint::spin_loop();
+                    }
+                    guarded(|| exact_image(&parser.parse(INPUT))).unwrap_or_else(|m| format!("PANIC {m}"))
+                })
+            })
+            .collect();
+        for h in handles {
+            let got = h.join().unwrap_or_else(|_| "THREAD PANICKED".to_string());
+            if got != expected && found.is_none() {
+                found = Some(got);
+            }
+        }
+        if found.is_some() {
+            break 'trials;
+        }
+    }
+    c.part(json!({"supplement (sampling, not part of the exhaustive claim)": "first calls on a new parser from free-running threads", "threads": threads, "trials": trials, "wall_s": t0.elapsed().as_secs_f64()}));
+    if let Some(got) = found {
+        c.violation(Violation::new(
+            "result depends on the thread interleaving (first calls on a new parser)",
+            format!("{threads} free-running threads making the first calls on a new parser: input {INPUT:?} gave a result different from the single-threaded one; {}", diff_pos(&expected, &got)),
+            json!({"kind": "stress", "input": INPUT}),
+        ));
+    }
+}
+
 fn init_stress_replay() {
     let reference: Vec<Vec<String>> = Vec::new();
     stress_supplement(Tier::Thorough, &reference);
+    if !ctx().has_violations() {
+        cold_start_supplement(Tier::Thorough);
+    }
 }
